@@ -39,3 +39,33 @@ Theorem C09_delay_measurement_exact : forall p st id send recv,
                  end /\
     me_offset m = None /\ me_peer_delay m = None /\ me_raw_sync m = None.
 Proof. exact extract_delay_exact. Qed.
+
+(** In every reachable state a Sync, Follow_Up or Delay_Resp whose sender is not
+    the parent shown by parentDS changes nothing and reaches neither the filter
+    nor the clock (so a measurement can only combine messages of the selected
+    parent). *)
+From SV Require Import Port.ParentInv.
+Theorem C09_not_from_parent_ignored : forall s es i o i' p h,
+  init s = Ok (i, o) -> run_state i es = Some i' -> In p (i_ports i') ->
+  pi_eqb (h_source h) (parent_id (i_ds i')) = false ->
+  (forall origin ts, handle_sync p (i_ds i') h origin ts = Ok (p, i_ds i', [])) /\
+  (forall precise, handle_follow_up p (i_ds i') h precise = Ok (p, i_ds i', [])) /\
+  (forall recv requester, handle_delay_resp p (i_ds i') h recv requester = Ok (p, i_ds i', [])).
+Proof. exact not_from_parent_ignored. Qed.
+
+(** C09_main: for every valid set-up and EVERY valid event list the COMPLETE
+    oracle ok_C09 accepts the model's own trace: every Sync / Delay measurement
+    handed to the filter is, exactly (units of 2^-32 ns), t2 - t1 - asymmetry
+    resp. t3 - t4 - asymmetry (corrections applied) of ONE Sync / Follow_Up resp.
+    Delay_Req timestamp / Delay_Resp pair with equal sequence id, both from the
+    parent shown by parentDS, received in the current slave episode; offset =
+    raw - mean delay, delay = (last raw sync - raw delay) / 2; and only a port
+    that is slave emits them.  The proof couples the SlaveState of every port
+    with the oracle's record of the inputs (MainC09.cpl) and carries the coupling
+    through every handler, the BMCA (a port keeps its exchange state, stops being
+    slave, or starts a fresh episode with a different parent) and every history. *)
+From SV Require Import Port.MainC09.
+Theorem C09_main : forall s es rel,
+  setup_valid s -> Forall event_valid es ->
+  exists i o, init s = Ok (i, o) /\ ok_C09 (mkCase s es rel (Some o) (run i es)) = true.
+Proof. exact ok_C09_model. Qed.
